@@ -25,6 +25,7 @@
 -/
 import SamlVerif.Model.SPTree
 import SamlVerif.Proofs.SPStruct
+import SamlVerif.Generated.Facts
 
 namespace SamlVerif.Tree
 open SamlVerif
@@ -387,6 +388,37 @@ theorem C01_foreign_signature_ignored (ctx : NSCtx) (c : Node) (rest out : List 
     findChildren ctx dsigNS "Signature" (c :: rest) = some out := by
   unfold findChildren
   simp [he, ht, hr, hrest, hns]
+
+/-! ### obligations on the current source (regenerated facts): the structure the model assumes -/
+
+/-- only descriptors with use "" or "signing" feed the signing roots (`metadataRoots`) -/
+theorem C01_signing_uses : Facts.signingCertUses = ["", "signing"] := by decide
+
+/-- `findChildren` skips on the tag, fails on an unresolvable prefix, skips on the namespace — and
+    nothing else (in particular it does not match on the local name alone) -/
+theorem C01_find_children_shape : Facts.findChildrenConds =
+    ["childEl.Tag != childTag", "err != nil", "err != nil", "err != nil", "ns != childNS"] := by decide
+
+/-- the element whose signature is validated is the element that is unmarshalled -/
+theorem C01_same_element : Facts.parseAssertionCalls =
+    ["sp.validateSignature(assertionEl)", "unmarshalElement(assertionEl)", "sp.validateAssertion(&assertion)"] := by decide
+
+/-- the Response verdict: valid lifts the requirement, absent keeps it, anything else rejects -/
+theorem C01_response_verdict : Facts.responseSignatureSwitch =
+    ["nil => signatureRequirement = signatureNotRequired",
+     "errSignatureElementNotPresent => signatureRequirement = signatureRequired",
+     "<default> => return nil, responseSignatureErr"] := by decide
+
+/-- the Signature is looked up as a ds:Signature *child*, and goxmldsig is handed the detached element -/
+theorem C01_signature_lookup : Facts.validateSignatureCalls =
+    ["findChild(el, \"http://www.w3.org/2000/09/xmldsig#\", \"Signature\")", "etreeutils.NSDetatch(ctx, el)",
+     "validationContext.Validate(el)"] := by decide
+
+/-- every entry point that parses bytes, and the decrypted plaintext, goes through the round-trip validator -/
+theorem C01_round_trip_validation :
+    ["ParseXMLArtifactResponse", "ParseXMLResponse", "decryptElement"].all (Facts.xrvCallSites.contains ·) = true := by decide
+
+theorem C01_extraction_clean : Facts.extractionFailures = [] := by decide
 
 /-! ### non-vacuity: a signed assertion in an unsigned Response is accepted; its unsigned twin is not -/
 
